@@ -14,6 +14,7 @@ import (
 	"encoding/json"
 	"fmt"
 	"math/rand"
+	"regexp"
 	"runtime"
 	"sort"
 	"strings"
@@ -189,6 +190,12 @@ func c20Child(idx int, raw json.RawMessage) (any, bool) {
 }
 
 func c20Run(cs c20Case) (res c20Res) {
+	if cs.Op == "selftest-background-panic" {
+		// harness self-test: a panic in a goroutine nobody can recover must be seen by the parent
+		go func() { var b []byte; _ = b[3] }()
+		time.Sleep(2 * time.Second)
+		return
+	}
 	op := cliOpByName(cs.Op)
 	if op == nil {
 		res.Fails = append(res.Fails, c20Fail{Key: "tie/unknown-op", What: cs.Op})
@@ -401,7 +408,7 @@ func c20Generate(c *lib.Ctx, dry map[string]c20Res) []c20Case {
 	var out []c20Case
 	nrand := 4
 	if thorough {
-		nrand = 24
+		nrand = 150
 	}
 	for _, op := range cliOps() {
 		d := dry[op.Name]
@@ -443,6 +450,10 @@ func c20Generate(c *lib.Ctx, dry map[string]c20Res) []c20Case {
 				}
 				for _, f := range cliReplyFields(fr) {
 					vals := []uint32{0, f.Val - 1, f.Val + 1, 1<<31 - 1, 1<<32 - 1}
+					if thorough {
+						// boundaries of the sizes in play: MaxPacket 16, pool buffers, the 256 KiB frame limit, sign bits
+						vals = append(vals, 1, 2, 3, 4, 8, 15, 16, 17, 32, 255, 256, 65535, 65536, 1<<18 - 1, 1 << 18, 1<<18 + 1, 1 << 24, 1 << 31, 1<<31 + 1, 1<<32 - 2)
+					}
 					if !full {
 						vals = []uint32{0, f.Val + 1, 1<<32 - 1}
 					}
@@ -519,6 +530,11 @@ func checkC20(c *lib.Ctx) {
 		}
 		cases = c20Generate(c, dry)
 	}
+	selftest := -1
+	if c.Replay == "" {
+		selftest = len(cases)
+		cases = append(cases, c20Case{Op: "selftest-background-panic"})
+	}
 	raws := make([]json.RawMessage, len(cases))
 	for i, cs := range cases {
 		raws[i], _ = json.Marshal(cs)
@@ -537,6 +553,14 @@ func checkC20(c *lib.Ctx) {
 	var maxAlloc uint64
 	unreached := 0
 	for i, cs := range cases {
+		if i == selftest {
+			if d := deaths[i]; d != nil && d.Why == "panic" && d.Confirmed {
+				r.Note("self-test passed: a panic in a background goroutine of a child is observed (%s)", d.Head)
+			} else {
+				r.Fail(lib.Failure{Kind: "tie", Key: "selftest/background-panic-not-observed", What: "a deliberate panic in a background goroutine of a child process was not reported as a death", Actual: deaths[i]})
+			}
+			continue
+		}
 		canon := fmt.Sprintf("%s#%d %s", cs.Op, cs.Idx, cs.Mut)
 		r.Case(canon, true)
 		r.Hist("op/" + cs.Op)
@@ -574,6 +598,9 @@ func checkC20(c *lib.Ctx) {
 			continue
 		}
 		r.Hist("outcome/" + res.Outcome)
+		if res.Summary == "nil-file" {
+			r.Hist("note/Open-returned-(nil,nil)")
+		}
 		r.Hist("after/" + res.After)
 		if res.Recv > 0 {
 			if q := float64(res.Alloc) / float64(res.Recv); q > maxRatio {
@@ -613,7 +640,23 @@ func checkC20(c *lib.Ctx) {
 			}
 		}
 		sort.SliceStable(ps, func(a, b int) bool { return ps[a].size < ps[b].size })
-		r.Note("%s: %d failing cases; smallest reply: %v", k, len(ps), c20ActualSent(ps[0].f))
+		heads := map[string]int{}
+		for _, p := range ps {
+			if m, ok := p.f.Actual.(map[string]any); ok {
+				if d, ok := m["death"].(*cliDeath); ok {
+					h := d.Head
+					// fold the numbers of "index out of range [3] with length 2" etc.
+					h = c20NumRe.ReplaceAllString(h, "N")
+					heads[h]++
+				}
+			}
+		}
+		var hs []string
+		for h, n := range heads {
+			hs = append(hs, fmt.Sprintf("%dx %s", n, h))
+		}
+		sort.Strings(hs)
+		r.Note("%s: %d failing cases; smallest reply: %v; crash messages: %s", k, len(ps), c20ActualSent(ps[0].f), strings.Join(hs, " | "))
 		for _, p := range ps {
 			r.Fail(p.f)
 		}
@@ -646,6 +689,8 @@ func c20Describe(cs c20Case) string {
 	out, _ := c20Apply(cs.Mut, valid)
 	return lib.Hex(out)
 }
+
+var c20NumRe = regexp.MustCompile(`[0-9]+`)
 
 var c20DryCache sync.Map
 
